@@ -37,8 +37,8 @@ static int is_global(int b) {
 int main(void) {
     char *line, *tok[8];
     WBXMLParser *P = wbxml_parser_create();
-    static WB_UTINY two[2] = {0, 0};
-    P->wbxml = wbxml_buffer_create(two, 2, 4);
+    static WB_UTINY three[3] = {0, 0, 0};
+    P->wbxml = wbxml_buffer_create(three, 3, 4);
     while ((line = vh_line(stdin)) != NULL) {
         int n = vh_split(line, tok, 8);
         const WBXMLLangEntry *L = n >= 2 ? wbxml_tables_get_table((WBXMLLanguage) atoi(tok[1])) : NULL;
@@ -112,10 +112,11 @@ int main(void) {
             putchar('\n');
         } else if (k == 'E' && n == 3) {
             WBXMLBuffer *res = NULL; WBXMLError r; int v = atoi(tok[2]);
-            /* EXT_T_0 followed by the value as a one-byte mb_u_int32 (v < 128) */
-            if (v > 127) { puts("!"); continue; }
+            /* EXT_T_0 followed by the value as an mb_u_int32 (one or two bytes) */
+            if (v > 255) { puts("!"); continue; }
             wbxml_buffer_set_char(P->wbxml, 0, WBXML_EXT_T_0);
-            wbxml_buffer_set_char(P->wbxml, 1, (WB_UTINY) v);
+            if (v < 128) wbxml_buffer_set_char(P->wbxml, 1, (WB_UTINY) v);
+            else { wbxml_buffer_set_char(P->wbxml, 1, 0x81); wbxml_buffer_set_char(P->wbxml, 2, (WB_UTINY) (v - 128)); }
             P->pos = 0;
             r = parse_extension(P, WBXML_TAG_TOKEN, &res);
             if (r != WBXML_OK) printf("err%d\n", (int) r);
